@@ -32,7 +32,12 @@ func GetFilesWithFilter(codeDir string, filter func(path string) bool) []string 
 
 	_ = filepath.Walk(codeDir, func(path string, fi os.FileInfo, err error) error {
 		if gitIgnore != nil {
-			if gitIgnore.MatchesPath(path) {
+			// patterns of the root .gitignore are relative to the analysed directory
+			ignorePath := path
+			if rel, relErr := filepath.Rel(codeDir, path); relErr == nil {
+				ignorePath = filepath.ToSlash(rel)
+			}
+			if gitIgnore.MatchesPath(ignorePath) {
 				return nil
 			}
 		}
